@@ -90,6 +90,7 @@ def cases(tier, seed, phase):
             if tier == 'quick' and n == 3 and sum(w != 'ok' for w in ws) > 1:
                 continue
             yield {'kind': 'httphop', 'edge': 'wsgi-loopback', 'writes': list(ws)}
+            yield {'kind': 'smtphop', 'edge': 'smtp', 'writes': list(ws)}
     for j in range(30 if tier == 'quick' else 600):
         rng = rng_for(seed, 'c02c', j)
         yield {'kind': 'concurrent', 'edge': 'smtp', 'nclients': rng.choice([2, 2, 3]), 'ndomains': rng.choice([1, 2, 3]),
@@ -802,6 +803,54 @@ def run_httphop(case, model):
     return CaseResult(mismatch, hits, key, ['httphop', 'n=%d' % len(rcpts), res.split(':')[0] + (':' + res.split(':')[1] if res.startswith('raised') else '')])
 
 
+def run_smtphop(case, model):
+    """The hop between two hosts that speak SMTP: a real StaticSmtpRelay delivers over a socketpair to a real SmtpEdge in front of a
+    real Queue + RecipientDomainSplit over a store whose k-th write fails. What the relay reports vs the composition of the relay
+    model with the edge's reply choice; "delivered" needs every envelope in the receiving storage."""
+    import gevent
+    from gevent import socket as gsocket
+    from slimta.edge.smtp import SmtpEdge
+    from slimta.relay.smtp.static import StaticSmtpRelay
+    from slimta.envelope import Envelope
+    from harness.props import c11
+    try:
+        gevent.get_hub().exception_stream = None
+    except Exception:
+        pass
+    state = {}
+    qcase = {'kind': 'queue', 'writes': case['writes'], 'slow': None}
+    queue = make_queue(qcase, state)
+    edge = SmtpEdge(None, queue, hostname='edge.example')
+    sessions = []
+
+    def creator(address):
+        a, b = gsocket.socketpair()
+        sessions.append(gevent.spawn(edge.handle, b, ('127.0.0.1', 40000)))
+        return a
+    relay = StaticSmtpRelay('edge.example', 25, socket_creator=creator, ehlo_as='relay.example', connect_timeout=2.0, command_timeout=3.0,
+                            data_timeout=3.0)
+    rcpts = recipients(qcase)
+    env = Envelope('sender@example.com', list(rcpts))
+    env.parse(b'Subject: c02 smtp hop\r\n\r\nbody\r\n')
+    try:
+        res = c11.run_attempt(relay, env, watchdog=8.0)
+    finally:
+        for c in list(relay.pool):
+            c.kill(block=False)
+        for g in sessions:
+            g.kill(block=False)
+    stored = snapshot_store(state) or []
+    m = model.ask('ingress smtphop %d %s' % (len(rcpts), ','.join('exc' if w == 'tmo' else w for w in case['writes'])))
+    mismatch = None if m == res else {'op': 'ingress smtphop', 'impl': res, 'model': m, 'writes': case['writes']}
+    hits = []
+    have = set(r for e in stored for r in e)
+    if res.startswith('table:') and 'ok' in res and not set(rcpts) <= have:
+        hits.append(hit('c02.ack-without-custody.smtp-hop', 'the SMTP relay reports a recipient delivered although an envelope of the message is not in '
+                        'the receiving host\'s storage', observed={'relay': res, 'stored': stored, 'writes': case['writes']}, expected=rcpts))
+    key = ('smtphop', tuple(case['writes']))
+    return CaseResult(mismatch, hits, key, ['smtphop', 'n=%d' % len(rcpts), res.split(':')[0] + (':' + res.split(':')[1] if res.startswith('raised') else '')])
+
+
 def run_case(case, model):
     if case.get('kind') == 'wsgi-gate':
         return run_wsgi_gate(case, model)
@@ -813,6 +862,8 @@ def run_case(case, model):
         return run_proxyhop(case, model)
     if case.get('kind') == 'httphop':
         return run_httphop(case, model)
+    if case.get('kind') == 'smtphop':
+        return run_smtphop(case, model)
     import gevent
     try:
         gevent.get_hub().exception_stream = None
